@@ -3,6 +3,6 @@
 
 
 
-const VhOp vh_adaptive_ops[] = {{NULL, NULL}};
+
 const VhOp vh_mem_ops[] = {{NULL, NULL}};
 
